@@ -10,9 +10,9 @@ mkdir -p "$OUT"; cp "$SD/patch$N.diff" "$OUT/patch.diff"; cp "$SD/demo$N.py" "$O
 HEAD=$(git -C /repo rev-parse HEAD)
 git -C "$WT" checkout -q -- . ; git -C "$WT" checkout -q --detach "$HEAD" || exit 3
 cd "$WT"
-/venv/bin/python "$OUT/demo.py" >/dev/null 2>&1; DC=$?
+PYTHONPATH="$WT" /venv/bin/python "$OUT/demo.py" >/dev/null 2>&1; DC=$?
 git apply "$OUT/patch.diff" || { echo "$ID/$N patch does not apply"; exit 4; }
-/venv/bin/python "$OUT/demo.py" >"$OUT/demo_with_change.log" 2>&1; DP=$?
+PYTHONPATH="$WT" /venv/bin/python "$OUT/demo.py" >"$OUT/demo_with_change.log" 2>&1; DP=$?
 J=$(mktemp /tmp/vf_junit_XXXX.xml)
 env -u FICKLING_VERIF /venv/bin/python -m pytest -ra -q -p no:cacheprovider --timeout=900 --continue-on-collection-errors --junitxml=$J >/dev/null 2>&1
 SUITE=$(/venv/bin/python - "$J" <<'PY'
